@@ -316,7 +316,7 @@ Qed.
 
 Lemma W_run_level : forall beh n st p, W st -> wf_beh beh -> W (run_level fixed beh n st p).
 Proof.
-  induction n; intros st p H Hb; simpl.
+  induction n; intros st p H Hb; cbn [run_level].
   - destruct (err st); [assumption|]. destruct (job_head (get_lv st p)); [assumption|].
     match goal with |- W (if stop ?s then _ else _) => assert (W s) as X end.
     { apply W_set_lv. apply W_dispatch; [apply W_set_lv|]; assumption. }
@@ -330,7 +330,7 @@ Qed.
 Lemma W_run_levels : forall beh ps st p_stop rem, W st -> wf_beh beh ->
   W (fst (fst (run_levels fixed beh ps st p_stop rem))).
 Proof.
-  induction ps; intros st p_stop rem H Hb; simpl; [assumption|].
+  induction ps; intros st p_stop rem H Hb; cbn [run_levels]; [assumption|].
   destruct (a >=? p_stop).
   - pose proof (W_run_level beh (Z.to_nat LT_TO_PROCESS) st a H Hb) as X.
     destruct (stop _); [assumption|]. apply IHps; assumption.
@@ -359,7 +359,7 @@ Qed.
 
 Lemma W_run_turns : forall beh dirs st p_stop rem, W st -> wf_beh beh -> W (run_turns fixed beh dirs st p_stop rem).
 Proof.
-  induction dirs; intros st p_stop rem H Hb; simpl; [assumption|].
+  induction dirs; intros st p_stop rem H Hb; cbn [run_turns]; [assumption|].
   destruct (err st); [assumption|].
   pose proof (W_get_more_jobs st H) as H1. destruct (get_more_jobs st) as [jt st1]. cbn [snd] in H1.
   pose proof (W_expire_timers st1 H1) as H2. destruct (expire_timers st1) as [tt st2]. cbn [snd] in H2.
@@ -367,17 +367,9 @@ Proof.
   destruct (W_choose st2 rem tt jt H2) as [H3 Ez].
   destruct (choose_timeout fixed st2 rem tt jt) as [ms st3]. cbn [fst snd] in *.
   rewrite <- Ez in D.
-  match goal with |- W (let '(_, _, _) := run_levels _ _ _ ?s _ _ in _) => assert (W s) as H4 end.
-  { assert (W (emit (emit st3 (EDecide ms (clk st2) match entry_get (heap st2) 0 with
-                                                    | Some r => t_exp r
-                                                    | None => -1
-                                                    end (1000 / hz st3) jt)) (EPoll ms (clk (emit st3 (EDecide ms (clk st2) match entry_get (heap st2) 0 with
-                                                    | Some r => t_exp r
-                                                    | None => -1
-                                                    end (1000 / hz st3) jt)))))) as X
-      by (apply W_emit; [apply W_emit; assumption|exact I]).
-    destruct dirs; [apply W_set_stop|]; apply W_advance; exact X. }
-  match goal with |- W (let '(_, _, _) := run_levels ?f ?b ?ps ?s ?q ?r in _) =>
+  match goal with |- context [run_levels _ _ _ ?s _ _] => assert (W s) as H4 end.
+  { destruct dirs; [apply W_set_stop|]; apply W_advance; (apply W_emit; [apply W_emit; assumption|exact I]). }
+  match goal with |- context [run_levels ?f ?b ?ps ?s ?q ?r] =>
     pose proof (W_run_levels b ps s q r H4 Hb) as H5; destruct (run_levels f b ps s q r) as [[st5 rem5] ret5] end.
   cbn [fst] in H5. destruct ret5; [assumption|]. destruct (stop st5); [assumption|]. apply IHdirs; assumption.
 Qed.
